@@ -811,6 +811,31 @@ def check_compress_indices(model, rep):
            'assemble_coo no longer validates rows through compress_indices', statement='coo-via-compress')
 
 
+def check_names_resolve(model, rep):
+    """R15.12: every name loaded in the constructor module matrix/__init__.py and in the backends resolves in some enclosing scope (symtable):
+    a constructor that refers to a name bound nowhere raises NameError instead of building (or rejecting) the matrix."""
+    from sa import scopes
+    n = 0
+    for short in ('matrix', 'matrix._base', 'matrix._numpy', 'matrix._scipy', 'matrix._mkl', 'numeric'):
+        m = model.modules.get(short)
+        if m is None:
+            continue
+        unres = [u for u in scopes.unresolved(m) if not u.in_error_operand]
+        byscope = {}
+        for u in unres:
+            byscope.setdefault(u.scope, []).append(u)
+        for f in [f for f in model.functions.values() if f.module is m and not isinstance(f.node, ast.Lambda)]:
+            n += 1
+            bad = byscope.get(f.qualname, [])
+            if bad:
+                for u in bad:
+                    rep.ob('R15.12', f.key, f'{m.relpath}:{u.lineno}', False, f'name `{u.name}` is bound in no enclosing scope: {f.qualname} raises NameError when it gets here', statement=f'unresolved {u.name}')
+            else:
+                rep.ob('R15.12', f.key, f.where(), True, 'every name loaded resolves (symtable)', statement='names-resolve')
+    if n < 60:
+        raise AnalysisError(f'R15.12 covered only {n} functions of the matrix package')
+
+
 def run(model, rep, tier):
     rep.explanation = (
         'R15.1 who-may-call: backend.current.assemble is called only from assemble_csr, backend matrix classes are constructed only in their own module, '
@@ -844,6 +869,8 @@ def run(model, rep, tier):
     rep.rule('R15.11', 'compress_indices never returns on counts / end points of the row indices alone (= R05.9)')
     from rules import shortcuts
     shortcuts.check(model, rep, 'R15.11', 'numeric:compress_indices', why='the number of stored entries and the first and last row do not determine the row pointers')
+    rep.rule('R15.12', 'every name loaded in the matrix package resolves (symtable)')
+    check_names_resolve(model, rep)
     rep.require('R15.2', 12)
     rep.require('R15.1', 9)
     rep.require('R15.3', 30)
